@@ -533,6 +533,10 @@ class RoundTripX(Oracle):
             L += self.op_cases(rng, i)
         # R: the witnesses of the fixed findings of this slice (known_findings.d/doc.json), as regression cases
         L += self.regress_cases()
+        # G: print options x content: anydata / anyxml values that are data trees with 0, 1, >= 2 top-level nodes, any in any,
+        # in single-root data, notifications, RPCs and replies, printed with and without LYD_PRINT_WITHSIBLINGS
+        for i in range(self.n(tier, 40, 400, scale)):
+            L += self.anyopt_cases(rng, i)
         # F: values around the LYB chunk limit
         lens = list(range(65500, 65545)) if tier != "thorough" else list(range(65400, 65600)) + [131040 + d for d in range(-40, 41)]
         for ln in lens:
@@ -586,6 +590,59 @@ class RoundTripX(Oracle):
         s.add("xany", "t0", "c0", "m1", "ad", "t", hexs('<top xmlns="urn:verif:m1">inner</top>'))
         L.append(self.finish(s, 3, jx, "regress"))
         return L
+
+    # ---- G ---------------------------------------------------------------------------------------
+    ANYOPT_YANG = """module m1 { yang-version 1.1; namespace "urn:verif:m1"; prefix m1;
+  container cfg { leaf name { type string; } anydata data; anyxml ax; container inner { anydata d2; leaf z { type string; } } }
+  container c1 { leaf a { type string; } }
+  container c2 { leaf b { type string; } leaf-list bl { type string; } }
+  leaf-list ll { type uint8; }
+  leaf top { type string; }
+  notification ev { leaf n { type string; } anydata data; }
+  rpc op { input { leaf i { type string; } anydata in; } output { leaf o { type string; } anydata out; } }
+}"""
+
+    def any_content(self, rng, depth=0):
+        """the content of an anydata / anyxml element: a data tree with 0, 1 or several top-level nodes, possibly holding an
+        anydata with content again"""
+        ns = ' xmlns="urn:verif:m1"'
+        parts = ['<c1%s><a>%s</a></c1>' % (ns, yanggen.xml_text(xval(rng) or "a")),
+                 '<c2%s><b>2</b><bl>x</bl><bl>y</bl></c2>' % ns, '<ll%s>3</ll><ll%s>4</ll>' % (ns, ns), '<top%s>t</top>' % ns]
+        if depth < 2:
+            parts.append('<cfg%s><name>nested%d</name><data>%s</data></cfg>' % (ns, depth, self.any_content(rng, depth + 1)))
+        k = rng.choice([0, 1, 2, 2, 3, 4])
+        return "".join(rng.sample(parts, min(k, len(parts))))
+
+    def anyopt_cases(self, rng, i):
+        E = "E"
+        ns = ' xmlns="urn:verif:m1"'
+        opts = [0, PRINT_SHRINK, SIB, SIB | PRINT_SHRINK, WD_ALL, WD_ALL | SIB, WD_TRIM | PRINT_SHRINK, PRINT_KEEPEMPTY, WD_EXPLICIT]
+        out = []
+        # single-root data: printing without LYD_PRINT_WITHSIBLINGS (= lyd_print_tree) is a complete print
+        s = Script()
+        s.ctx()
+        s.mod(self.ANYOPT_YANG)
+        s.parse(0, "x", '<cfg%s><name>n</name><data>%s</data><ax>%s</ax><inner><d2>%s</d2><z>z</z></inner></cfg>'
+                % (ns, self.any_content(rng), self.any_content(rng, 1), self.any_content(rng, 1)), popts=OPQ, vopts=0)
+        out.append(self.finish(s, 3, [("d", f, po, E) for f in "xjb" for po in opts], "anyopt-data"))
+        # operations
+        kind = "nry"[i % 3]
+        s = Script()
+        s.ctx()
+        s.mod(self.ANYOPT_YANG)
+        setup = 2
+        if kind == "n":
+            s.add("parseop", "c0", "t0", "x", "n", hexs('<ev%s><n>1</n><data>%s</data></ev>' % (ns, self.any_content(rng))))
+        elif kind == "r":
+            s.add("parseop", "c0", "t0", "x", "r", hexs('<op%s><i>1</i><in>%s</in></op>' % (ns, self.any_content(rng))))
+        else:
+            s.add("parseop", "c0", "t5", "x", "r", hexs('<op%s/>' % ns))
+            setup += 1
+            s.add("parseop", "c0", "t0", "x", "y", hexs('<o%s>1</o><out%s>%s</out>' % (ns, ns, self.any_content(rng))), "t5#0")
+        setup += 1
+        checks = [(kind, f, po, E) for f in "xjb" for po in (0, PRINT_SHRINK, WD_ALL, PRINT_KEEPEMPTY) if not (kind == "y" and f == "b")]
+        out.append(self.finish(s, setup, checks, "anyopt-" + kind))
+        return out
 
     # ---- C ---------------------------------------------------------------------------------------
     def api_case(self, rng, xml):
@@ -831,6 +888,7 @@ class RoundTripX(Oracle):
             # JSON / XML printers this oracle used to list are fixed (known_findings.d/doc.json) and fail like anything else
             if kf[1] == "b" and rt.startswith("P"):
                 tag = "lyb-hash-collision"            # the LYB printer gives up on colliding sibling hashes (as in RoundTrip)
+            # (the former finding json-nested-any-module-lost is fixed by 58cec3d: a plain violation)
             if rc(rt) != 0:
                 return (tag, "print / parse back failed (%s): %s" % (what, rt))
             if exp != "C" and dmp != base:
@@ -905,6 +963,37 @@ class WellFormedX(Oracle):
             L.append("doc\t#w %s %d %s\t" % (fam, nsetup, fj) +
                      "\t".join(cmds + ["print %s x %d" % (node, po | PRINT_SHRINK), "print %s x %d" % (node, po),
                                        "print %s %s %d" % (node, fj, po | PRINT_SHRINK), "print %s %s %d" % (node, fj, po)]))
+        # size sweep: single print chunks (indentation + name, namespace declaration, raw any content) around the sizes 256,
+        # 512, 1024 - element / member names, namespaces, anydata JSON / string values of these lengths, deep nesting
+        sizes = [n for c in (256, 512, 1024) for n in range(c - 9, c + 6)]
+        for n in sizes:
+            for kind in ("name", "ns", "anyj", "anys"):
+                s = Script()
+                s.ctx()
+                s.mod(FIXED_YANG)
+                if kind == "name":
+                    nm = "n" + "a" * (n - 1)
+                    s.parse(0, "x", '<c xmlns="urn:verif:m1"><known>k</known><%s>v</%s><%s/></c><%s xmlns="urn:verif:m1"><x/></%s>'
+                            % (nm, nm, nm + "b", nm, nm), popts=OPQ, vopts=0)
+                elif kind == "ns":
+                    s.parse(0, "x", '<e xmlns="urn:%s"><f>1</f></e><c xmlns="urn:verif:m1"><g xmlns="urn:%s"/></c>'
+                            % ("x" * n, "y" * (n - 4)), popts=OPQ, vopts=0)
+                elif kind == "anyj":
+                    s.add("xany", "t0", "c0", "m1", "ax", "j", hexs('{"k":"%s"}' % ("z" * (n - 8))))
+                else:
+                    s.add("xany", "t0", "c0", "m1", "ad", "s", hexs("s" * n))
+                L.append("doc\t#w size 3 j\t" +
+                         "\t".join(s.cmds + ["print t0 x %d" % (SIB | PRINT_SHRINK), "print t0 x %d" % SIB,
+                                             "print t0 j %d" % (SIB | PRINT_SHRINK), "print t0 j %d" % SIB]))
+        for depth in (126, 130, 255, 258):
+            s = Script()
+            s.ctx()
+            s.mod(FIXED_YANG)
+            s.parse(0, "x", '<c xmlns="urn:verif:m1">' + "".join("<d%d>" % (k % 10) for k in range(depth)) + "v" +
+                    "".join("</d%d>" % (k % 10) for k in reversed(range(depth))) + "</c>", popts=OPQ, vopts=0)
+            L.append("doc\t#w size 3 j\t" +
+                     "\t".join(s.cmds + ["print t0 x %d" % (SIB | PRINT_SHRINK), "print t0 x %d" % SIB,
+                                         "print t0 j %d" % (SIB | PRINT_SHRINK), "print t0 j %d" % SIB]))
         # json-trim-leaflist-meta (f592167): trim mode drops an instance of a leaf-list that carries metadata
         for data in ('<ll xmlns="urn:verif:m1" xmlns:m1="urn:verif:m1" m1:note="N">-9</ll><ll xmlns="urn:verif:m1">-7</ll>'
                      '<c xmlns="urn:verif:m1"><x>a</x></c>',
@@ -1204,9 +1293,10 @@ class RoundTripTypes(Oracle):
     ]
 
     def instance(self, rng, i):
-        """(XML document, own prefixes of ta / tb / tc): every third case the three modules legally share ONE prefix (the
-        printers must not rely on module prefixes being unique), every third case tb and tc do"""
-        own = [("pa", "pb", "pc"), ("p", "p", "p"), ("pa", "q", "q")][i % 3]
+        """(XML document, own prefixes of ta / tb / tc): the three modules legally share ONE prefix (the printers must not
+        rely on module prefixes being unique), or tb and tc do, or the REAL prefix of a module is one the printer generates
+        for another one (p1, p2)"""
+        own = [("pa", "pb", "pc"), ("p", "p", "p"), ("pa", "q", "q"), ("p1", "p", "p"), ("p", "p2", "p1")][i % 5]
         # every type is selected in turn, with a few random others; the instance-identifier group sees their instances
         chosen = [TSPECS[i % len(TSPECS)]] + rng.sample(TSPECS, rng.randrange(2, 6))
         seen, groups = set(), []
@@ -1656,3 +1746,242 @@ class LybCollisionRT(RoundTripX):
                     L.append(self.finish(s, 3, [("d", "b", SIB, E), ("d", "x", SIB | PRINT_SHRINK, E), ("d", "j", SIB | PRINT_SHRINK, E)],
                                          "lybcol-%d" % depth))
         return L
+
+
+# ------------------------------------------------------------------------------------------------
+# printing ONE node (an instance of a list / leaf-list / opaque array)
+# ------------------------------------------------------------------------------------------------
+SINGLE_YANG = """module m1 { yang-version 1.1; namespace "urn:verif:m1"; prefix m1;
+  import ietf-yang-metadata { prefix md; }
+  md:annotation note { type string; }
+  list l { key "k1 k2"; leaf k1 { type string; } leaf k2 { type string; } leaf v { type string; } }
+  list ul { key k; ordered-by user; leaf k { type string; } leaf v { type string; } }
+  list sl { config false; leaf v { type string; } }
+  leaf-list ll { type int8; }
+  leaf-list ull { type int8; ordered-by user; }
+  leaf top { type string; }
+  container c {
+    list l { key "k1 k2"; leaf k1 { type string; } leaf k2 { type string; } leaf v { type string; } }
+    leaf-list ll { type int8; }
+    leaf-list ull { type int8; ordered-by user; }
+    leaf in { type string; }
+  }
+}"""
+
+
+class SingleNodeX(Oracle):
+    """C12 / C01 for lyd_print_mem() of ONE node: every node of trees that hold runs of list and leaf-list instances (system-
+    and user-ordered, keyless state lists), instances that became opaque nodes (list instance without a key, leaf-list value
+    of the wrong type; parsed with LYD_PARSE_OPAQ), unknown elements repeated as opaque arrays, metadata on some instances -
+    the first, middle and last instance of each run - is printed alone and with LYD_PRINT_WITHSIBLINGS, as JSON (shrunk,
+    formatted) and XML. Every output must be read by Python json / expat; the output for a top-level node printed alone
+    must parse back (LYD_PARSE_OPAQ) to exactly that node: dump, lyd_compare_single, metadata."""
+    name = "singlenodex"
+    driver = "t_doc"
+    PRINTS = [("j", PRINT_SHRINK), ("j", 0), ("x", PRINT_SHRINK), ("j", PRINT_SHRINK | SIB), ("x", PRINT_SHRINK | SIB), ("j", PRINT_KEEPEMPTY)]
+
+    def run(self, rng, inner):
+        """a run of sibling elements (XML text, element count)"""
+        out, n = "", 0
+        meta = lambda: ' xmlns:m1="urn:verif:m1" m1:note="%s"' % rng.choice(["n", "two words"]) if rng.random() < 0.25 else ""
+        kinds = ["l", "ul", "ll", "ull", "unk"] + ([] if inner else ["sl"])
+        for kind in rng.sample(kinds, rng.randrange(1, len(kinds) + 1)):
+            for i in range(rng.randrange(1, 5)):
+                bad = rng.random() < 0.35
+                if kind in ("l", "ul"):
+                    keys = ("<k1>a%d</k1>" % i + ("" if bad else "<k2>b</k2>")) if kind == "l" else ("" if bad else "<k>k%d</k>" % i)
+                    v = "<v>v%d</v>" % i if (rng.random() < 0.6 or not keys) else ""
+                    out += "<%s%s>%s%s</%s>" % (kind, meta() if not bad else "", keys, v, kind)
+                    n += 1 + keys.count("</k") + (1 if v else 0)
+                elif kind == "sl":
+                    out += "<sl><v>s%d</v></sl>" % i
+                    n += 2
+                elif kind == "unk":
+                    ch = rng.random() < 0.4
+                    out += "<unk>%s</unk>" % ("<x>1</x>" if ch else "u%d" % i)
+                    n += 2 if ch else 1
+                else:
+                    out += "<%s%s>%s</%s>" % (kind, meta() if not bad else "", "x%d" % i if bad else str(i * 7 - 5), kind)
+                    n += 1
+        return out, n
+
+    def gen(self, rng, tier, scale=1.0):
+        L = []
+        for i in range(self.n(tier, 120, 1500, scale)):
+            top, n1 = self.run(rng, False)
+            inner, n2 = self.run(rng, True)
+            ns = ' xmlns="urn:verif:m1"'
+            data = re_sub_first(top, ns) + ("<c%s>%s<in>i</in></c>" % (ns, inner) if i % 3 else "") + "<top%s>t</top>" % ns
+            n = n1 + 1 + ((n2 + 2) if i % 3 else 0)
+            s = Script()
+            s.ctx()
+            s.mod(SINGLE_YANG)
+            s.parse(0, "x", data, popts=OPQ, vopts=0)
+            s.add("count", "t0")
+            for k in range(n):
+                node = "t0#%d" % k
+                s.add("xdump1", node)
+                for fmt, po in self.PRINTS:
+                    s.add("print", node, fmt, po)
+                for fmt in "jx":
+                    s.add("xrt1", node, "t2", fmt, PRINT_SHRINK, OPQ, 0)
+                    s.add("xcmp1", node, "t2")
+                    s.add("xdump", "t2")
+            L.append("doc\t#s single 3 %d\t" % n + "\t".join(s.cmds))
+        return L
+
+    def judge(self, line, out):
+        import json
+        import xml.parsers.expat
+        if crashed(out):
+            # (the former finding print-json-single-list-instance-open-array is fixed by 6dea40e: nothing is excused): a JSON array opened for an opaque instance that is printed alone is
+            # never closed, assert(!pctx.open.count)
+            return (None, "crash: " + out[:200])
+        r = results(out)[1:]
+        n = int(line.split("\t")[1].split(" ")[3])
+        for x in r[:3]:
+            if rc(x) != 0:
+                self.skipped = getattr(self, "skipped", 0) + 1
+                return None
+        if r[3].split(" ")[-1] != str(n) and r[3] != str(n):
+            return (None, "generator: %s nodes expected, the tree has %s" % (n, r[3]))
+        k = 4
+        per = 1 + len(self.PRINTS) + 6
+        for idx in range(n):
+            blk = r[k:k + per]
+            k += per
+            d1 = blk[0]
+            top = d1.startswith("0:")
+            what = "node #%d %s" % (idx, d1[:60])
+            for (fmt, po), res in zip(self.PRINTS, blk[1:1 + len(self.PRINTS)]):
+                if rc(res) != 0:
+                    return (None, "printing one node failed (%s, %s opts %d): %s" % (what, fmt, po, res))
+                doc = payload(res)
+                try:
+                    if fmt == "j":
+                        json.loads(doc.decode("utf-8"))
+                    else:
+                        p = xml.parsers.expat.ParserCreate(namespace_separator=" ")
+                        p.Parse(b"<root>" + doc + b"</root>", True)
+                except (ValueError, UnicodeDecodeError, xml.parsers.expat.ExpatError) as e:
+                    return (None, "one node printed as %s (opts %d) is not well-formed (%s): %s: %r" % (fmt, po, what, e, doc[:200]))
+            if not top:
+                continue
+            for j, fmt in enumerate("jx"):
+                if fmt == "j" and ("?" in [e.split(":")[1][:1] for e in d1.split(";") if e.count(":") > 1]):
+                    # (an opaque node parsed from XML may carry no list / leaf-list hint: alone it is printed as a plain member,
+                    # which the JSON parser refuses for the name of a list: subtrees with opaque nodes are not judged here)
+                    continue
+                rt, cmp_, dmp = blk[1 + len(self.PRINTS) + 3 * j:4 + len(self.PRINTS) + 3 * j]
+                if rc(rt) != 0:
+                    return (None, "the output for one top-level node does not parse back (%s, %s): %s" % (what, fmt, rt))
+                if dmp != d1 or cmp_ != "0:0:1":
+                    return (None, "the output for one top-level node parses back to something else (%s, %s): compare:metadata:"
+                                  "nodes = %s, %s -> %s" % (what, fmt, cmp_, d1[:120], dmp[:120]))
+        return None
+
+
+def re_sub_first(xml, ns):
+    """the namespace on every top-level element of a run"""
+    import re
+    depth, out, pos = 0, [], 0
+    for m in re.finditer(r"<(/?)([A-Za-z][\w.-]*)([^>]*)>", xml):
+        out.append(xml[pos:m.start()])
+        pos = m.end()
+        if m.group(1):
+            depth -= 1
+            out.append(m.group(0))
+        else:
+            out.append("<%s%s%s>" % (m.group(2), ns if depth == 0 else "", m.group(3)))
+            depth += 1
+    out.append(xml[pos:])
+    return "".join(out)
+
+
+# ------------------------------------------------------------------------------------------------
+# the order of the metadata of a node, with-defaults default attribute included
+# ------------------------------------------------------------------------------------------------
+class MetaOrderX(Oracle):
+    """C01 for the ORDER of metadata in the input: the same instance with the attributes of every node in a canonical order
+    (ietf-netconf-with-defaults default="true" first, as libyang prints it) and in a random permutation - the default
+    attribute in the 2nd, 3rd ... position among other annotations - as XML and as JSON (metadata objects / leaf-list
+    metadata arrays), parsed only and with validation: all trees must be the same (values, default flags, every metadata in
+    the order given)."""
+    name = "metaorderx"
+    driver = "t_doc"
+    YANG = """module m1 { yang-version 1.1; namespace "urn:verif:m1"; prefix m1;
+  import ietf-yang-metadata { prefix md; }
+  md:annotation note { type string; } md:annotation tag { type uint8; } md:annotation flag { type boolean; }
+  leaf l { type string; default "d"; }
+  leaf-list ll { type string; default "d"; default "e"; }
+  container c { leaf x { type uint8; default 7; } leaf y { type string; } list li { key k; leaf k { type string; } leaf v { type string; default "d"; } } }
+}"""
+    WDNS = "urn:ietf:params:xml:ns:yang:ietf-netconf-with-defaults"
+
+    def gen(self, rng, tier, scale=1.0):
+        import json
+        L = []
+        for i in range(self.n(tier, 60, 800, scale)):
+            def metas(dflt):
+                ms = [(k, v) for k, v in (("note", "n%d" % rng.randrange(9)), ("tag", rng.randrange(200)), ("flag", rng.random() < 0.5)) if rng.random() < 0.6]
+                return ([("default", True)] if dflt else []) + ms
+
+            nodes = [("l", "d", metas(rng.random() < 0.7)), ("x", 7, metas(rng.random() < 0.7)), ("v", "d", metas(rng.random() < 0.7)),
+                     ("ll0", "d", metas(True)), ("ll1", "e", metas(True)), ("y", "yy", metas(False))]
+            docs = []
+            for perm in (False, True):
+                m = {}
+                for name, val, ms in nodes:
+                    ms = list(ms)
+                    if perm and len(ms) > 1:
+                        first = ms[0]
+                        while ms[0] == first and ms[0][0] == "default":
+                            rng.shuffle(ms)
+                    m[name] = ms
+
+                def xa(name):
+                    return "".join(' %s:%s="%s"' % ("wd" if k == "default" else "m1", k, str(v).lower() if isinstance(v, bool) else v) for k, v in m[name])
+
+                def jm(name):
+                    return {("ietf-netconf-with-defaults:" if k == "default" else "m1:") + k: v for k, v in m[name]}
+                ns = ' xmlns="urn:verif:m1" xmlns:m1="urn:verif:m1" xmlns:wd="%s"' % self.WDNS
+                x = ('<l%s%s>d</l><ll%s%s>d</ll><ll%s%s>e</ll><c%s><x%s>7</x><y%s>yy</y><li><k>a</k><v%s>d</v></li></c>'
+                     % (ns, xa("l"), ns, xa("ll0"), ns, xa("ll1"), ns, xa("x"), xa("y"), xa("v")))
+                j = {"m1:l": "d", "@m1:l": jm("l"), "m1:ll": ["d", "e"], "@m1:ll": [jm("ll0"), jm("ll1")],
+                     "m1:c": {"x": 7, "@x": jm("x"), "y": "yy", "@y": jm("y"), "li": [{"k": "a", "v": "d", "@v": jm("v")}]}}
+                # (no empty metadata objects)
+                prune = lambda o: {k: (prune(v) if isinstance(v, dict) and not k.startswith("@") else
+                                       [prune(e) if isinstance(e, dict) else e for e in v] if isinstance(v, list) and not k.startswith("@") else v)
+                                   for k, v in o.items() if not (k.startswith("@") and v == {})}
+                j = prune(j)
+                docs.append((x, json.dumps(j)))
+            for popts, vopts in ((PARSE_ONLY | PARSE_STRICT, 0), (PARSE_STRICT, VAL_PRESENT)):
+                s = Script()
+                s.ctx(searchdir=TEST_MODULES)
+                s.mod(self.YANG)
+                s.load("ietf-netconf-with-defaults")
+                for k, (fmt, data) in enumerate((("x", docs[0][0]), ("x", docs[1][0]), ("j", docs[0][1]), ("j", docs[1][1]))):
+                    s.parse(k, fmt, data, popts=popts, vopts=vopts)
+                for k in range(4):
+                    s.add("xdump", "t%d" % k)
+                L.append("doc\t#m metaorder\t" + "\t".join(s.cmds))
+        return L
+
+    def judge(self, line, out):
+        if crashed(out):
+            # (the former finding xml-wd-default-attr-not-first is fixed by e9866d8: nothing is excused)
+            return (None, "crash: " + out[:200])
+        r = results(out)[1:]
+        if any(rc(x) != 0 for x in r[:3]):
+            self.skipped = getattr(self, "skipped", 0) + 1
+            return None
+        for k, x in enumerate(r[3:7]):
+            if rc(x) != 0:
+                return (None, "a valid instance is refused (%s, attributes %s): %s" % ("xxjj"[k], ("canonical", "permuted")[k % 2], x))
+        d = r[7:11]
+        strip = lambda dump: ";".join(e.split(":@")[0] + ":@" + ":@".join(sorted(e.split(":@")[1:])) if ":@" in e else e for e in dump.split(";"))
+        for k in (1, 2, 3):
+            if strip(d[k]) != strip(d[0]):
+                return (None, "the same instance with %s attributes in %s parses to another tree: %s" %
+                        (("canonical", "permuted")[k % 2], "xxjj"[k], diff_hint(strip(d[0]), strip(d[k]))))
+        return None
